@@ -72,6 +72,22 @@ add("C12", "other",
     "compared pairwise, plus statement-form equivalences (x=x+1 / x=1+x / t=x;x=t+1, e op e vs t op t, if !c A else B vs if c B else A).",
     COMMON_NOTE, "metamorphic testing of the Go code across code-generation contexts + Coq theorems on the semantics + model correspondence")
 
+add("C03", "other",
+    "Partial. Proved in Coq on the definitional semantics (PropC03.v): frames are fresh objects, creating frames or closures "
+    "disturbs nothing that exists, an assignment writes one slot of its own activation: there is no hidden machine state a call "
+    "could depend on. Not proved: the same independence for the VM (memory layer: C18; K1 open). Decided each run by placing the "
+    "same call of a side-effect-free function in about 60 dynamic contexts of one session on the real code (call depth 1-400, "
+    "loop bodies, generators, after stack growth, operand stack heights sweeping the 128-slot boundaries, wide frames, recycled "
+    "contexts, after errors); all renderings must agree; sessions also run on Sem and the VM model.", COMMON_NOTE,
+    "metamorphic testing of the Go code across dynamic contexts + Coq theorems on the semantics + model correspondence")
+add("C04", "other",
+    "Partial. Proved in Coq about the resolver model (PropC04.v): a read resolves to the own variable, else the immediately "
+    "enclosing function's, else the global, never further out; a write inside a function targets its own scope; fresh slots are "
+    "distinct. The resolver model is compared with STRewrite's output tree-for-tree on every generated program. Not proved: that "
+    "the VM keeps globals and caller variables untouched across calls and that escaped closures see the right frame (K2 open). "
+    "Decided each run with Sem as oracle on scoping-heavy generated sessions and by fingerprinting globals / caller variables "
+    "around calls on the real code.", COMMON_NOTE, DIFF)
+
 PENDING_REASON = "check under construction in this round (the technique applies; see DESIGN.md section 6); not yet claimed"
 
 
